@@ -374,9 +374,26 @@ class Engine:
                 loc = self._index_loc(loc, idx)
             elif k == "cidx":
                 if e["from_end"]:
-                    loc = ("I", loc, unknown("from_end"))
+                    if loc[0] == "S":
+                        loc = ("I", loc[1], mk_bin("Sub", loc[3], C(e["offset"], "usize"), "usize"))
+                    else:
+                        loc = ("I", loc, unknown("from_end"))
                 else:
                     loc = self._index_loc(loc, C(e["offset"], "usize"))
+            elif k == "subslice":
+                # slice patterns `[a, rest @ ..]` / `[.., last]`: a sub-slice of the place
+                if loc[0] == "S":
+                    b0, lo0, hi0 = loc[1], loc[2], loc[3]
+                elif loc[0] == "P":
+                    b0, lo0, hi0 = loc, C(0, "usize"), ("len", loc[1])
+                else:
+                    b0 = None
+                if b0 is None:
+                    loc = ("I", loc, unknown("proj subslice"))
+                else:
+                    nlo = mk_bin("Add", lo0, C(e["from"], "usize"), "usize")
+                    nhi = mk_bin("Sub", hi0, C(e["to"], "usize"), "usize") if e["from_end"] else mk_bin("Add", lo0, C(e["to"], "usize"), "usize")
+                    loc = ("S", b0, nlo, nhi)
             else:
                 loc = ("I", loc, unknown("proj " + k))
             i += 1
@@ -1723,6 +1740,37 @@ def _m_from_bool(eng, st, callee, args, ev):
     return NotImplemented
 
 
+def _mk_slice_iter(x):
+    return ("agg", "adt", "core::slice::iter::Iter", "Iter", ("pos", "slice"), (C(0, "usize"), x), 0)
+
+
+def _m_slice_iter(eng, st, callee, args, ev):
+    """x.iter() / (&x).into_iter(): an iterator value that remembers the slice and how many elements were taken"""
+    a = args[0]
+    if callee["name"] == "into_iter":
+        sty = callee.get("self_ty") or ""
+        if not (sty.startswith("&[") or (sty.startswith("&'") and "[" in sty and "mut" not in sty)):
+            return _m_into_iter(eng, st, callee, args, ev)
+    while a[0] == "ref" and a[1][0] == "P":
+        a = a[1][1]
+    return _mk_slice_iter(a)
+
+
+def _m_iter_next(eng, st, callee, args, ev):
+    r = args[0]
+    if r[0] == "ref":
+        v = eng.read(st, r[1])
+        if v[0] == "agg" and v[1] == "adt" and v[2] == "core::slice::iter::Iter":
+            pos, x = v[5][0], v[5][1]
+            sp = slice_parts(eng, st, x)
+            if sp is not None:
+                b0, lo0, hi0 = sp
+                ln = mk_bin("Sub", hi0, lo0, "usize")
+                eng.write(st, r[1], v[:5] + ((mk_bin("Add", pos, C(1, "usize"), "usize"), x),) + v[6:])
+                return mk_optif(mk_bin("Lt", pos, ln, "usize"), ("ref", ("I", b0, mk_bin("Add", lo0, pos, "usize"))))
+    return _m_range_next(eng, st, callee, args, ev)
+
+
 def _m_as_ptr(eng, st, callee, args, ev):
     sp = slice_parts(eng, st, args[0], callee.get("self_ty"))
     if sp is None:
@@ -1736,6 +1784,9 @@ def _m_as_ptr(eng, st, callee, args, ev):
 
 
 SLICE_MODELS = {
+    "core::slice::<impl [T]>::iter": _m_slice_iter,
+    "core::iter::traits::collect::IntoIterator::into_iter": _m_slice_iter,
+    "core::iter::traits::iterator::Iterator::next": _m_iter_next,
     "core::slice::<impl [T]>::as_ptr": _m_as_ptr,
     "core::slice::<impl [T]>::as_mut_ptr": _m_as_ptr,
     "core::ops::index::Index::index": _m_index2,
